@@ -109,7 +109,11 @@ func init() {
 			}
 			for i := 0; i < n; i++ {
 				t := newTape(c.Rng)
-				v := build(t)
+				v, finite := tryBuild(build, t)
+				if !finite {
+					c.Inc("no_finite_value_skipped")
+					continue
+				}
 				c.Eval(1)
 				c.Inc("values")
 				countKinds(c, v)
